@@ -550,7 +550,8 @@ def conjV (k : Nat) (v : V α) : V α := trunc k (fun i => conj (v i))
 def linT (a : Obj α) : Obj α :=
   if a.md.inDt.isComplex then
     mkLin .linop a.md.outShape a.md.inShape a.md.inDt a.md.outDt
-      (fun x => conjV a.n (a.adj (conjV a.m x))) a.eval a.adjCallDt a.evalDt
+      (fun x => conjV a.n (a.adj (conjV a.m x)))
+      (fun x => conjV a.m (a.eval (conjV a.n x))) a.adjCallDt a.evalDt
   else
     mkLin .linop a.md.outShape a.md.inShape a.md.outDt a.md.inDt
       a.adj a.eval a.adjCallDt a.evalDt
